@@ -404,6 +404,8 @@ def run(ctx: Ctx) -> int:
     for r in rows[:2] + rows[-2:]:
         ctx.sample({k: r[k] for k in ("sc", "fl", "L", "limit", "sched", "reads", "out")})
     ctx.assume("TCP segmentation modelled at the socket / StreamReader boundary (recv, recv_into, feed_data, feed_eof)")
+    from .. import faultsim
+    faultsim.check(ctx, "C14")   # the same statement through the public API: peer faults at every step of the online conversation (OnlineFaults.tla)
     return ctx.finish(
         rule="schedules = every segmentation of each reply into <=3 (<=2 for long replies) segments at every byte offset and every EOF "
         "point, enumerated by TLC from RpcRecv.tla with FragLen = the real reply length, plus random finer partitions; each replayed into "
